@@ -179,6 +179,7 @@ def _c14():
 
 def _c15():
     return [
+        ("R-ST-FIELDS", "a stream entry holds its field-value pairs in a container that keeps every pair in the order given (not a map keyed by the field name)", rules_stream.rule_st_fields),
         ("R-XREAD-COUNT", "a loop reading several streams hands each stream the caller's COUNT itself (no running budget) and ends only by exhaustion of the stream list or with an error", rules_stream.rule_xread_count),
         ("R-DISPATCH", "every stream command named by the property has a dispatcher arm with the right effect class and Stream primitive", rules_cmd.make_dispatch_rule("C15")),
         ("R-BYTES-ENGINE", "every bytes-only argument (key, value, member, field, field map) the command layer hands to the storage engine carries the client's bytes: no lossy / UTF-8-only decoding, case mapping, cutting or sorting on its value flow inside the handler", rules_cmd.make_bytes_engine_rule("C15")),
